@@ -1291,6 +1291,29 @@ func fuzzStreams(r *mon.Run, env *plug.Env, names []string) {
 		}
 		cases = append(cases, fz{machine, raw, []string{"exit", "linger"}[rng.Intn(2)]})
 	}
+	// pipelined output of more than one read buffer, written in one piece, with
+	// CR LF (or LF, or lone CR) line ends, shifted byte by byte so that every
+	// character of a line end falls on the last byte of a 4096-byte window once
+	big := 0
+	for _, eol := range []string{"\r\n", "\n", "\r"} {
+		for pad := 0; pad < 40; pad++ {
+			if eol != "\r\n" && pad%5 != 0 && !r.Thorough() {
+				continue
+			}
+			machine := pad % 2
+			lead := st("pad", "msg", []string{strings.Repeat("a", pad+1)}, []byte("x")).raw
+			body := st("big", "msg", nil, []byte("pipelined plugin output")).raw
+			raw := append([]byte{}, lead...)
+			for len(raw) < 9000 {
+				raw = append(raw, body...)
+			}
+			raw = append(raw, terminals[0].raw...)
+			raw = bytes.ReplaceAll(raw, []byte("\n"), []byte(eol))
+			cases = append(cases, fz{machine, raw, []string{"exit", "linger"}[pad%2]})
+			big++
+		}
+	}
+	r.Set("hostile_streams_longer_than_a_read_buffer", big)
 	var next atomic.Int64
 	var wg sync.WaitGroup
 	for w := range names {
